@@ -79,6 +79,19 @@ class Unit:
                 for m in w.members():
                     if m.kind == 'fn' and m.name not in extracted[w.relpath]:
                         n += w.inline_calls(m, 'method', table)
+        # constants of a woven file that code under contract mentions but the extraction does not know (new since the
+        # contracts were written) are copied verbatim in front of the first item that mentions them
+        emitted = set()
+        for w in roots:
+            src, ct = extract.load(self.repo, w.relpath)
+            for it in extract.parse_items(ct, 0, len(ct) - 1):
+                if it.kind != 'const' or it.name in extracted[w.relpath] or (w.relpath, it.name) in emitted:
+                    continue
+                if any(ct[i][0] == 'id' and ct[i][1] == it.name for i in range(w.lo, w.hi + 1)
+                       if not any(r.start <= ct[i][2] < r.end for r in w.repls)):
+                    w._ins(ct[w.lo][2], src[ct[it.lo][2]:ct[it.hi][3]] + '\n', None)
+                    emitted.add((w.relpath, it.name))
+                    self.dropped.append('T15: constant `%s` of %s (not part of the extraction) is copied verbatim next to the code that uses it' % (it.name, w.relpath))
         if n:
             self.dropped.append('T15: %d call(s) of helper functions that have no contract were inlined at the call site '
                                 '(`{ let (params,) = (args,); let kv_ret: R = <helper body>; kv_ret }`)' % n)
